@@ -1090,7 +1090,8 @@ def shared_initial_state(ctx, rule):
                         if agg_get(stv, R["dropped_f"]) != const(0):
                             bad.append("producer-finished flag initially set")
                         q = aget(stv, R["queue_f"])
-                        if not (isinstance(q, tuple) and q[0] == "call" and q[1].endswith("VecDeque::<T>::new")):
+                        if not (isinstance(q, tuple) and q[0] == "call" and (q[1].endswith("VecDeque::<T>::new") or (
+                                q[1].startswith("<std::collections::VecDeque<") and q[1].endswith(" as std::default::Default>::default")))):   # Default for VecDeque is new()
                             bad.append("initial queue is %s, not VecDeque::new()" % short(q, 40))
                     if not (is_agg(wk) and wk[3] == "None"):
                         bad.append("a waker is registered initially")
